@@ -43,8 +43,10 @@ class CopyPropagate:
             ):
                 # direct assignment: x = y
                 # substitute all occurences of this definition of `x` with `y`
-                if len(def_use.uses[d]) > 0:
-                    # optimization: only propagate if there is at least one use
+                if any(isinstance(u, Var) for u in def_use.uses[d]):
+                    # only propagate if there is a use the substitution can
+                    # rewrite: `x[i] = e` uses `x` but keeps its name, and
+                    # reporting a change for it keeps `simplify` from settling
                     prop[d] = d.site.expr
 
         if not prop:
